@@ -32,6 +32,8 @@ pub enum Delivery {
     Foreign,
     Reflect,
     CraftedNotCbor,
+    /// a correctly encrypted message whose plaintext is EMPTY (not CBOR)
+    CraftedEmpty,
     CraftedNotStruct,
     CraftedWrongCounter(u32),
     CraftedWrongRole,
@@ -56,6 +58,8 @@ pub enum TOp {
     Prepare(Vec<usize>, bool), // indices into DOC_TYPES to request+permit; plus a not-held docType?
     NextPayload,
     Submit(bool), // true: honest signature over the offered payload; false: arbitrary bytes
+    /// the honest signature handed over in DER form (SEQUENCE of two INTEGERs, 70-72 octets): attached as submitted
+    SubmitDer,
     Ready,
     Retrieve,
     DeliverResp(Delivery),
@@ -337,7 +341,7 @@ impl World {
                 Some(x) => x,
                 None => garbage,
             },
-            Delivery::CraftedNotCbor | Delivery::CraftedNotStruct | Delivery::CraftedWrongCounter(_) | Delivery::CraftedWrongRole
+            Delivery::CraftedNotCbor | Delivery::CraftedEmpty | Delivery::CraftedNotStruct | Delivery::CraftedWrongCounter(_) | Delivery::CraftedWrongRole
             | Delivery::CraftedForeignRequest(_) | Delivery::CraftedBytesKeyed => {
                 // harness-made ciphertexts under the right direction key
                 let (key, kid, recv_ctr) = if to_device {
@@ -348,6 +352,7 @@ impl World {
                 self.crafted += 1;
                 let (ctr, from_device_id, pt, plain): (u32, bool, Vec<u8>, Value) = match d {
                     Delivery::CraftedNotCbor => (recv_ctr as u32 + 1, !to_device, vec![0xff, 0x00, 0x1c], arr(vec![uint(if to_device { 1 } else { 4 })])),
+                    Delivery::CraftedEmpty => (recv_ctr as u32 + 1, !to_device, vec![], arr(vec![uint(if to_device { 1 } else { 4 })])),
                     Delivery::CraftedNotStruct => (recv_ctr as u32 + 1, !to_device, vec![0x83, 0x01, 0x02, 0x03], arr(vec![uint(if to_device { 2 } else { 4 })])),
                     Delivery::CraftedWrongCounter(off) => (recv_ctr as u32 + 2 + off, !to_device, vec![0xa0], arr(vec![uint(if to_device { 2 } else { 4 })])),
                     Delivery::CraftedForeignRequest(i) if to_device => {
@@ -470,6 +475,26 @@ impl World {
                         }
                     }
                     _ => (0..rng.gen_range(0..70)).map(|_| rng.gen()).collect(),
+                };
+                let r = catch(|| self.dev.submit_next_signature(sig.clone()));
+                let out = match r {
+                    Ok(Ok(())) => arr(vec![uint(6)]),
+                    Ok(Err(e)) => arr(vec![text("error"), text(&e.to_string())]),
+                    Err(p) => arr(vec![text("panic"), text(&p)]),
+                };
+                (arr(vec![uint(4), bytes(&sig)]), out)
+            }
+            TOp::SubmitDer => {
+                let offered = self.dev.get_next_signature_payload().map(|(_, p)| p.to_vec());
+                let sig: Vec<u8> = match &offered {
+                    Some(p) => {
+                        let t = doc_type_of_payload(p).unwrap_or_default();
+                        match self.device_keys.get(&t) {
+                            Some(k) => { let s: p256::ecdsa::Signature = k.sign(p); s.to_der().as_bytes().to_vec() }
+                            None => vec![0x30, 0x06, 0x02, 0x01, 0x01, 0x02, 0x01, 0x01],
+                        }
+                    }
+                    None => vec![0x30, 0x06, 0x02, 0x01, 0x01, 0x02, 0x01, 0x01],
                 };
                 let r = catch(|| self.dev.submit_next_signature(sig.clone()));
                 let out = match r {
